@@ -117,11 +117,11 @@ Proof.
     + destruct (run_body E C fault k h s1) as [[[r0 l0] h0] s0] eqn:Ek. apply IHk in Ek. inversion H; subst; congruence.
   - destruct (nested E C fault cx (run_body E C fault b) h s) as [[[r0 o0] h1] s1] eqn:En.
     apply (nested_cx_log _ _ IHb) in En.
-    destruct r0.
+    destruct r0 as [|e0|p0].
     + destruct (run_body E C fault k h1 s1) as [[[r1 l1] h2] s2] eqn:Ek. apply IHk in Ek. inversion H; subst; congruence.
     + destruct chk; [inversion H; subst; exact En|].
       destruct (run_body E C fault k h1 s1) as [[[r1 l1] h2] s2] eqn:Ek. apply IHk in Ek. inversion H; subst; congruence.
-    + destruct rcv; [|inversion H; subst; exact En].
+    + destruct (recovers rcv p0); [|inversion H; subst; exact En].
       destruct (run_body E C fault k h1 s1) as [[[r1 l1] h2] s2] eqn:Ek. apply IHk in Ek. inversion H; subst; congruence.
   - destruct (h_sp E C fault true (NUser n) h s) as [h1 s1] eqn:Es. apply h_sp_log in Es.
     destruct h1; [inversion H; subst; exact Es|].
